@@ -629,7 +629,11 @@ class Messenger(Connection):
         ''' Handle an idle timer timeout. '''
         self._idle_stop()
         self._logger.debug('Idle time reached')
-        self.send_sess_term(messages.SessionTerm.Reason.IDLE_TIMEOUT, False)
+        if self._in_term:
+            # The peer never finished the termination
+            self.close()
+        else:
+            self.send_sess_term(messages.SessionTerm.Reason.IDLE_TIMEOUT, False)
         return False
 
     def recv_raw(self, data):
